@@ -10,6 +10,13 @@ from harness.util import outcome
 INVS = ["AllowedSubset", "InProgressOnly", "OpenOnlyIfKRemain", "AtMostOneIncomplete", "ZeroOrK", "NeverMoreThanK", "ExportState"]
 
 
+POLICIES = {}        # ONE policy object per k for the whole run (screen after screen): nothing about an earlier screen may stick
+
+
+def policy(k):
+    return POLICIES.setdefault(k, RecPolicy(k))
+
+
 class RecPolicy(KPerSamplePlatePolicy):
     def __init__(self, k):
         super().__init__(k)
@@ -62,7 +69,7 @@ def _state_traces(ctx, e, rnd, all_allowed):
     scr = _screen(so, ob, rnd)
     base = {"kind": "walk", "k": k, "sampleOf": so, "observed": ob, "batch0": batch, "plate_samples": [], "raised": False, "flow": e["flow"]}
     out = []
-    pol = RecPolicy(k)
+    pol = policy(k)
     # the policy alone
     bp = [pl for pl in scr.plates if pl.plate_id in batch]
     rem = sorted([pl for pl in scr.plates if not pl.is_observed and pl.plate_id not in batch], key=lambda p: p.plate_id)
@@ -97,7 +104,7 @@ def _walk(rnd, npl, nsamp, k, flow=None):
     ob = [rnd.random() < 0.25 for _ in range(npl)]
     scr = _screen(so, ob, rnd)
     batch, steps = [], []
-    pol = RecPolicy(k)
+    pol = policy(k)
     for _ in range(npl + 1):
         h = ChunkedScoresHolder(npl)
         rank = [rnd.randint(0, 6) for _ in range(npl)]
@@ -130,7 +137,7 @@ def _multi(rnd):
     ob = [False] * npl
     scr = _screen(so, ob, rnd)
     rem = sorted(scr.plates, key=lambda p: p.plate_id)
-    st, r = outcome(KPerSamplePlatePolicy(2).filter_eligible_plates, [], rem, np.random.default_rng(0))
+    st, r = outcome(policy(2).filter_eligible_plates, [], rem, np.random.default_rng(0))
     raised = st != "ok" and r.startswith("ValueError")
     return {"kind": "multi", "k": 2, "sampleOf": [0], "observed": [False], "steps": [], "flow": "prospective", "batch0": [],
             "plate_samples": [sorted(set(int(x) for x in p.sample_ids)) for p in rem], "raised": raised,
